@@ -8,6 +8,9 @@ CONSTANTS
   ImgNames = {"ext"}
   IdPool = {"rId1", "rId3", "rId40"}
   NamePool = {"image0.png", "image2.png"}
+  SlimDims = {"xrel", "mix", "sty", "sdef", "sref"}
+  SlimOps = {"AddHeading", "AddFootnote", "Reopen"}
+  DimGroups = {}
 INVARIANTS Inv_All Inv_DetectParts Inv_DetectRels Inv_ShapeWellFormed
 PROPERTIES Act_Frame
 CHECK_DEADLOCK FALSE
